@@ -15,6 +15,7 @@ import (
 	"os"
 	"sort"
 	"strconv"
+	"time"
 )
 
 type stopHarness struct{ why string }
@@ -284,4 +285,42 @@ func CmpIntFloat(v int64, f float64) int {
 		return 1
 	}
 	return bf.Cmp(big.NewFloat(f))
+}
+
+// Budget runs f and requires it to finish within a work budget: symbolically
+// maxSteps executed SSA instructions and the engine's call-depth bound; natively
+// maxMillis of wall time (unbounded recursion crashes the replay process with a
+// stack overflow, which the driver also takes as confirmation).
+func Budget(id string, maxSteps int, maxMillis int, f func()) {
+	done := make(chan struct{})
+	var rec interface{}
+	go func() {
+		defer func() {
+			rec = recover()
+			close(done)
+		}()
+		f()
+	}()
+	select {
+	case <-done:
+		if rec != nil {
+			panic(rec)
+		}
+	case <-time.After(time.Duration(maxMillis) * time.Millisecond):
+		Assert(id, false)
+	}
+}
+
+// ExpectBudget is Budget for an obligation listed as a known finding.
+func ExpectBudget(id string, maxSteps int, maxMillis int, f func()) {
+	done := make(chan struct{})
+	go func() {
+		defer func() { recover(); close(done) }()
+		f()
+	}()
+	select {
+	case <-done:
+	case <-time.After(time.Duration(maxMillis) * time.Millisecond):
+		Expect(id, false)
+	}
 }
